@@ -124,3 +124,52 @@ func H_C08_FieldBytes() {
 	}
 	zzverif.Reach("done")
 }
+
+// C08/L1 (assume-guarantee on the field layer): serialising an affine point whose coordinates are what SetXYZ
+// leaves - results of Mul, i.e. any limb vector of magnitude 1, not normalised (H_C08_FieldMul's guarantee) -
+// gives the canonical X and the parity of the canonical Y, through GetPublicKey (33 and 65 bytes) and Bytes.
+func H_C08_PointSerialize() {
+	zzverif.IntMode()
+	zzverif.Bound("coordinates", "every pair of limb vectors of magnitude 1 (limbs <= 2*(2^52-1), top limb <= 2*(2^48-1))")
+	if zzverif.Symbolic() {
+		// Normalize by its contract (decided by H_C08_FieldNormalize): the canonical limbs of the value mod p
+		zzverif.Stub("(*Field).Normalize replaced by its contract: limbs of (value mod p)")
+		lim := new(big.Int).Lsh(big.NewInt(1), 52)
+		zzverif.Replace("(*secp256k1.Field).Normalize", func(f *Field) {
+			m := new(big.Int).Mod(h_value(f), h_P)
+			for i := 0; i < 5; i++ {
+				f.n[i] = new(big.Int).Mod(new(big.Int).Rsh(m, uint(52*i)), lim).Uint64()
+			}
+		})
+	}
+	x, y := h_field("x", 1), h_field("y", 1)
+	xc := new(big.Int).Mod(h_value(x), h_P)
+	yc := new(big.Int).Mod(h_value(y), h_P)
+	yodd := new(big.Int).Mod(yc, big.NewInt(2)).Sign() != 0
+	var wantX, wantY [32]byte
+	xc.FillBytes(wantX[:])
+	yc.FillBytes(wantY[:])
+	form := zzverif.Enum("form", 4)
+	pk := XY{X: *x, Y: *y}
+	var out []byte
+	switch form {
+	case 0:
+		out = make([]byte, 33)
+		pk.GetPublicKey(out)
+	case 1:
+		out = make([]byte, 65)
+		pk.GetPublicKey(out)
+	case 2:
+		out = pk.Bytes(true)
+	case 3:
+		out = pk.Bytes(false)
+	}
+	zzverif.Assert("C08.point.serialize.x", string(out[1:33]) == string(wantX[:]))
+	if len(out) == 33 {
+		zzverif.Assert("C08.point.serialize.parity", out[0] == 2 || out[0] == 3)
+		zzverif.Assert("C08.point.serialize.parity", (out[0] == 3) == yodd)
+	} else {
+		zzverif.Assert("C08.point.serialize.y", out[0] == 4 && string(out[33:65]) == string(wantY[:]))
+	}
+	zzverif.Reach("done")
+}
